@@ -3,7 +3,12 @@
 A generated multi-branch history (merges of merges, criss-cross, ghosts, tags) is built; then ONE
 branch object is kept write-locked while commits / merges / tip moves are interleaved with a full
 battery of queries (so stale revno caches show), and a freshly opened branch object answers the
-same battery without a held lock (the uncached paths).  Reference answers come from plain set
+same battery without a held lock (the uncached paths).  In two cases of three the tip moves while
+pre/post_change_branch_tip hooks that themselves look at the history are installed (what they are told
+inside the hook is judged too), and the mainline lookups are repeated newest-first / in bisection order /
+shuffled on fresh objects under one read lock each (what one lookup leaves in the partial-history cache is
+what the next starts from).  Formats: 2a, pack-0.92 and knit (full-history branch, generic Branch.get_rev_id).
+Reference answers come from plain set
 algebra over the parents that were asked for at commit time (left-hand history, ancestry,
 first mainline merger, lowest common ancestors) - independent of vcsgraph and of the branch code.
 """
@@ -13,26 +18,32 @@ from vf.checks import _c02_hist as H
 
 ID = "C22"
 LEVEL = "exploration"
-TECHNIQUE = "model graph (set algebra over requested parents) vs real Branch revno/dotted-revno maps and RevisionSpec resolution, queries interleaved with commits on one locked branch object"
+TECHNIQUE = "model graph (set algebra over requested parents) vs real Branch revno/dotted-revno maps and RevisionSpec resolution, queries interleaved with commits on one locked branch object, with and without history-reading tip-change hooks, lookups in several orders under one lock"
 LEVEL_TEXT = ("held on the generated histories and on every generated specifier string over their revisions; "
               "dotted revnos are judged as a bijection and for round trips, not for their numbering scheme")
-RULE = ("case = one generated history (quick <= 9 revisions + 3 interleaved steps, thorough <= 24 + 6; <= 3 branches; 2a and pack-0.92); "
+RULE = ("case = one generated history (quick <= 9 revisions + 3 interleaved steps, thorough <= 24 + 6; <= 3 branches; 2a, pack-0.92 and knit; two cases in three with history-reading pre/post_change_branch_tip hooks installed during the interleaved steps, their in-hook answers judged against the model afterwards); "
         "battery after every step on the locked branch object and on a fresh one: get_rev_id / revision_id_to_revno for every n and revision, "
         "revno map, dotted round trips for every revision in the ancestry, iter_merge_sorted_revisions, and specs N, -N, revno:, a.b.c, revid:, "
-        "before:, last:, tag:, ancestor:, mainline:, branch-qualified revno:N:PATH / revno:a.b.c:PATH alone and inside mainline:, ranges; one evaluation = one query judged; non-trivial = history has a merge; "
+        "before:, last:, tag:, ancestor:, mainline:, branch-qualified revno:N:PATH / revno:a.b.c:PATH alone and inside mainline:, ranges; "
+        "then get_rev_id / revision_id_to_revno / N / -N / last: / before: for the whole mainline newest-first, in bisection order and shuffled, "
+        "each order on a fresh branch object under one read lock (and one such scan first thing after a tip change on the held object); one evaluation = one query judged; non-trivial = history has a merge; "
         "distinct = (query form, outcome class, mainline/merged)")
 CASES = {"quick": 48, "thorough": 900}
-BUDGET_S = {"quick": 22, "thorough": 780}
+BUDGET_S = {"quick": 40, "thorough": 780}
 MIN_EVALS = {"quick": 3000, "thorough": 200000}
 FLOORS = {"quick": {"get_rev_id": 200, "id_to_revno": 200, "revno_map": 30, "dotted_roundtrip": 300, "merge_sorted": 30,
                     "spec_number": 200, "spec_negative": 100, "spec_dotted": 20, "spec_revid": 100, "spec_before": 100,
                     "spec_last": 100, "spec_tag": 10, "spec_ancestor": 10, "spec_mainline": 60, "same_object_after_commit": 15,
-                    "spec_cross_revno": 60, "spec_cross_mainline": 30, "spec_cross_mainline_merged_revision": 8},
+                    "spec_cross_revno": 60, "spec_cross_mainline": 30, "spec_cross_mainline_merged_revision": 8,
+                    "lookup_order": 800, "lookup_order_pass": 150, "lookup_order_pass_held_object": 10, "lookup_order_generic_get_rev_id": 150,
+                    "tip_hook_pre": 20, "tip_hook_post": 20, "tip_hook_answer": 200, "same_object_after_hooked_tip_change": 15},
           "thorough": {"get_rev_id": 20000, "id_to_revno": 20000, "revno_map": 2000, "dotted_roundtrip": 30000, "merge_sorted": 2000,
                        "spec_number": 20000, "spec_negative": 10000, "spec_dotted": 3000, "spec_revid": 10000, "spec_before": 10000,
                        "spec_last": 10000, "spec_tag": 1000, "spec_ancestor": 1000, "spec_mainline": 6000,
                        "same_object_after_commit": 2000, "spec_cross_revno": 6000, "spec_cross_mainline": 3000,
-                       "spec_cross_mainline_merged_revision": 800}}
+                       "spec_cross_mainline_merged_revision": 800,
+                       "lookup_order": 20000, "lookup_order_pass": 4000, "lookup_order_pass_held_object": 300, "lookup_order_generic_get_rev_id": 4000,
+                       "tip_hook_pre": 600, "tip_hook_post": 600, "tip_hook_answer": 6000, "same_object_after_hooked_tip_change": 500}}
 EXHAUSTIVE = {"quick": False, "thorough": False}
 ASSUMPTIONS = [
     "the model graph is the parents handed to commit (read back once per case from the repository and compared)",
@@ -40,6 +51,9 @@ ASSUMPTIONS = [
     "specs whose definition names no revision must be refused with a BzrError; last:(revno+1), revno 0 and revid: of revisions outside the ancestry are not judged",
     "ancestor: is judged as 'a common ancestor that is an ancestor-or-equal of every lowest common ancestor' (equality when the LCA is unique)",
     "ghost parents are not part of the model ancestry; before: of a revision whose left parent is a ghost is not judged",
+    "inside a pre_change_branch_tip hook the branch is asked about the tip it still has, inside a post_change_branch_tip hook about the new one; "
+    "the hooks only read (they never raise, so they never veto the change)",
+    "generic Branch.get_rev_id is exercised through format-5 ('knit') branches only; git / foreign branches are not generated here",
 ]
 
 NULL = b"null:"
@@ -126,14 +140,16 @@ class Battery:
                       sample={"query": form, "outcome": outcome, "phase": self.phase} if self.merged and self.ctx.rng.random() < 0.002 else None)
         self.ctx.distinct("query_outcomes", (form, outcome, extra))
 
+    def set_tip(self, tip):
+        lh, anc = self.g.lh(tip), self.g.anc(tip)
+        self.lh, self.anc, self.n, self.tip = lh, anc, len(lh), tip
+        self.merged = len(anc) > len(lh)
+
     # ---- branch API
     def run_branch_api(self, b, tip):
         ctx, g = self.ctx, self.g
-        lh = g.lh(tip)
-        anc = g.anc(tip)
-        n = len(lh)
-        self.lh, self.anc, self.n, self.tip = lh, anc, n, tip
-        self.merged = len(anc) > n
+        self.set_tip(tip)
+        lh, anc, n = self.lh, self.anc, self.n
         main = set(lh)
         info = b.last_revision_info()
         if info != (n, tip):
@@ -481,6 +497,223 @@ class Battery:
                 self.fail("spec:range:open-ended", "%r -> %r" % (s, specs), spec=s)
 
 
+    # ---- the same lookups in other orders, starting from an empty cache, under ONE held lock
+    def order_sequences(self):
+        """name -> order in which the revnos 1..n are asked for."""
+        n = self.n
+        down = list(range(n, 0, -1))
+        bis, todo = [], [(1, n)]
+        while todo:
+            lo, hi = todo.pop(0)
+            if lo > hi:
+                continue
+            mid = (lo + hi) // 2
+            bis.append(mid)
+            todo += [(mid + 1, hi), (lo, mid - 1)]
+        shuf = list(down)
+        self.ctx.rng.shuffle(shuf)
+        return {"newest-first": down, "bisection": bis, "shuffled": shuf}
+
+    def order_pass(self, b, order, seq, mode):
+        """Ask for every mainline revision in the order `seq`; `b` is locked by the caller and nothing else is asked in between,
+        so what one lookup leaves in the branch's history caches is what the next one starts from."""
+        from breezy.revisionspec import RevisionSpec
+
+        from breezy.branch import Branch
+
+        ctx, rng, lh, n = self.ctx, self.ctx.rng, self.lh, self.n
+        ok = True
+        asked = []
+        generic = type(b).get_rev_id is Branch.get_rev_id
+
+        def bad(key, msg):
+            self.fail("lookup-order:" + key, "%s order (%s), after %r: %s" % (order, mode, asked[-6:], msg), order=order, sequence=seq, revno=n)
+
+        for i in seq:
+            k = n - i + 1
+            form = mode if mode != "mixed" else rng.choice(["api", "api", "id_to_revno", "spec"])
+            ctx.count("lookup_order")
+            if generic:
+                ctx.count("lookup_order_generic_get_rev_id")
+            if form == "api":
+                st, v = _refusal(lambda: b.get_rev_id(i))
+                asked.append("get_rev_id(%d)" % i)
+                self.ev("order_get_rev_id", st, order)
+                if (st, v) != ("ok", lh[i - 1]):
+                    bad("get_rev_id", "get_rev_id(%d) -> %s %r, model %r" % (i, st, v, lh[i - 1]))
+                    ok = False
+            elif form == "id_to_revno":
+                st, v = _refusal(lambda: b.revision_id_to_revno(lh[i - 1]))
+                asked.append("revision_id_to_revno(#%d)" % i)
+                self.ev("order_id_to_revno", st, order)
+                if (st, v) != ("ok", i):
+                    bad("revision_id_to_revno", "revision_id_to_revno(%r) -> %s %r, model %d" % (lh[i - 1], st, v, i))
+                    ok = False
+                    continue
+                st, v = _refusal(lambda: b.get_rev_id(i))
+                if (st, v) != ("ok", lh[i - 1]):
+                    bad("revno-roundtrip", "get_rev_id(revision_id_to_revno(%r)) -> %s %r" % (lh[i - 1], st, v))
+                    ok = False
+            else:
+                kind, s, want = rng.choice([
+                    ("number", "revno:%d" % i, (i, lh[i - 1])), ("number", "%d" % i, (i, lh[i - 1])),
+                    ("negative", "-%d" % k, (i, lh[i - 1])), ("last", "last:%d" % k, (i, lh[i - 1])),
+                    ("before", "before:%d" % i, (i - 1, lh[i - 2] if i > 1 else NULL)),
+                    ("before", "before:-%d" % k, (i - 1, lh[i - 2] if i > 1 else NULL))])
+                if s in self.tags:
+                    continue
+                asked.append(s)
+                spec = RevisionSpec.from_string(s)
+
+                def hist_():
+                    x = spec.in_history(b)
+                    return (x.revno, x.rev_id)
+
+                if rng.random() < 0.5:
+                    st, v = _refusal(hist_)
+                    how = "in_history"
+                else:
+                    st, v = _refusal(lambda: spec.as_revision_id(b))
+                    how, want = "as_revision_id", want[1]
+                self.ev("order_spec_" + kind, st, order)
+                if (st, v) != ("ok", want):
+                    bad("spec:" + kind, "%s(%r) -> %s %r, definition gives %r" % (how, s, st, v, want))
+                    ok = False
+        return ok
+
+    def run_orders(self, open_fresh):
+        """Every order x mode on its own fresh branch object under its own single read lock (caches start empty)."""
+        for order, seq in sorted(self.order_sequences().items()):
+            for mode in ("api", "spec", "mixed"):
+                fb = open_fresh()
+                self.ctx.count("lookup_order_pass")
+                with fb.lock_read():
+                    self.order_pass(fb, order, seq, mode)
+
+
+# ------------------------------------------------------------------ tip-change hooks that look at the history
+
+class TipHooks:
+    """A pre_change_branch_tip hook that looks at the branch's history (as an audit / policy plugin does) and a
+    post_change_branch_tip hook that asks about the new tip while the lock that covers the tip change is still held.
+    Both only record; judge() compares with the model once the model knows the new revision."""
+
+    PRE, POST = "c22 history-reading pre hook", "c22 history-reading post hook"
+    READS = ["id_to_revno", "get_rev_id", "dotted", "map", "merge_sorted", "spec"]
+
+    def __init__(self, ctx):
+        self.ctx, self.obs, self.installed = ctx, [], False
+
+    def install(self):
+        from breezy.branch import Branch
+
+        Branch.hooks.install_named_hook("pre_change_branch_tip", self.pre, self.PRE)
+        Branch.hooks.install_named_hook("post_change_branch_tip", self.post, self.POST)
+        self.installed = True
+
+    def uninstall(self):
+        from breezy.branch import Branch
+
+        if self.installed:
+            Branch.hooks.uninstall_named_hook("pre_change_branch_tip", self.PRE)
+            Branch.hooks.uninstall_named_hook("post_change_branch_tip", self.POST)
+            self.installed = False
+
+    @staticmethod
+    def _ask(fn):
+        try:
+            return ("ok", fn())
+        except Exception as e:  # noqa: BLE001  a hook that raises aborts the operation: record, judge later
+            return ("raised", type(e).__name__)
+
+    def pre(self, params):
+        rng = self.ctx.rng
+        reads = [r for r in self.READS if rng.random() < 0.45] or [rng.choice(self.READS)]
+        self._look("pre", params.branch, params.old_revno, params.old_revid, reads, params)
+
+    def post(self, params):
+        rng = self.ctx.rng
+        reads = [r for r in self.READS if rng.random() < 0.6] or ["get_rev_id"]
+        self._look("post", params.branch, params.new_revno, params.new_revid, reads, params)
+
+    def _look(self, when, b, revno, revid, reads, params):
+        """Ask `b` about its CURRENT tip (revno, revid): the old one in the pre hook, the new one in the post hook."""
+        from breezy.revisionspec import RevisionSpec
+
+        rng = self.ctx.rng
+        ans = []
+        for r in reads:
+            if r == "id_to_revno":
+                ans.append((r, revid, self._ask(lambda: b.revision_id_to_revno(revid))))
+            elif r == "get_rev_id":
+                for j in sorted({max(1, revno - 1), max(1, revno - 2), rng.randint(1, max(1, revno))}, reverse=rng.random() < 0.5):
+                    if 1 <= j <= revno:
+                        ans.append((r, j, self._ask(lambda: b.get_rev_id(j))))
+            elif r == "dotted":
+                d = self._ask(lambda: tuple(b.revision_id_to_dotted_revno(revid)))
+                ans.append(("dotted", revid, d))
+                if d[0] == "ok":
+                    ans.append(("dotted_back", d[1], self._ask(lambda: b.dotted_revno_to_revision_id(d[1]))))
+            elif r == "map":
+                ans.append((r, None, self._ask(lambda: dict(b.get_revision_id_to_revno_map()))))
+            elif r == "merge_sorted":
+                ans.append((r, None, self._ask(lambda: [(x[0], tuple(x[2])) for x in b.iter_merge_sorted_revisions()])))
+            elif r == "spec":
+                for s in ("-1", "before:-1", "last:2", "revno:%d" % max(1, revno - 1)):
+                    if revno >= 2 or s == "-1":
+                        ans.append((r, s, self._ask(lambda: RevisionSpec.from_string(s).as_revision_id(b))))
+        self.obs.append({"when": when, "tip": (revno, revid), "answers": ans,
+                         "change": "%r -> %r" % ((params.old_revno, params.old_revid), (params.new_revno, params.new_revid))})
+
+    def judge(self, g, hist, phase):
+        """Every recorded answer against the model graph (which by now contains the revision just committed)."""
+        ctx = self.ctx
+        obs, self.obs = self.obs, []
+        for o in obs:
+            when, (revno, tip) = o["when"], o["tip"]
+            ctx.count("tip_hook_" + when)
+            if tip == NULL or tip not in g.P:
+                ctx.count("tip_hook_tip_outside_model_skipped")
+                continue
+            lh, anc = g.lh(tip), g.anc(tip)
+            n = len(lh)
+            merged = len(anc) > n
+
+            def fail(key, msg):
+                ctx.fail("tip-hook:%s:%s" % (when, key), "in the %s_change_branch_tip hook of %s (%s): %s" % (when, o["change"], phase, msg),
+                         {"phase": phase, "format": hist.fmt, "answers": repr(o["answers"])[:1500], "log": hist.log[-30:]})
+
+            if revno != n:
+                fail("params-revno", "hook was told revno %r for tip %r, left-hand history has %d" % (revno, tip, n))
+                continue
+            for q, arg, (st, v) in o["answers"]:
+                ctx.count("tip_hook_answer")
+                ctx.note(("tip_hook", when, q, st), nontrivial=merged)
+                ctx.distinct("query_outcomes", ("tip_hook", when, q, st))
+                if st != "ok":
+                    fail(q + ":raised", "%s(%r) raised %s" % (q, arg, v))
+                elif q == "id_to_revno" and v != n:
+                    fail(q, "revision_id_to_revno(%r) -> %r, model %d" % (arg, v, n))
+                elif q == "get_rev_id" and v != lh[arg - 1]:
+                    fail(q, "get_rev_id(%d) -> %r, model %r (revno %d)" % (arg, v, lh[arg - 1], n))
+                elif q == "dotted" and v != (n,):
+                    fail(q, "revision_id_to_dotted_revno(tip %r) -> %r, model (%d,)" % (arg, v, n))
+                elif q == "dotted_back" and v != tip:
+                    fail(q, "dotted_revno_to_revision_id(%r) -> %r, wanted the tip %r" % (arg, v, tip))
+                elif q == "map" and (set(v) != anc or any(v[r] != (i + 1,) for i, r in enumerate(lh))):
+                    fail(q, "revno map has %d keys (ancestry %d) or numbers the mainline differently: %r" % (
+                        len(v), len(anc), [v.get(r) for r in lh]))
+                elif q == "merge_sorted" and (sorted(x[0] for x in v) != sorted(anc) or [x[0] for x in v if len(x[1]) == 1] != lh[::-1]):
+                    fail(q, "iter_merge_sorted_revisions lists %d revisions (ancestry %d), mainline part %r" % (
+                        len(v), len(anc), [x[0] for x in v if len(x[1]) == 1]))
+                elif q == "spec":
+                    want = {"-1": tip, "before:-1": lh[n - 2] if n >= 2 else None, "last:2": lh[n - 2] if n >= 2 else None}.get(arg)
+                    if arg.startswith("revno:"):
+                        want = lh[int(arg[6:]) - 1]
+                    if want is not None and v != want:
+                        fail(q, "as_revision_id(%r) -> %r, definition gives %r" % (arg, v, want))
+
+
 # ------------------------------------------------------------------ remote branch, in process
 
 class PipeServer:
@@ -545,17 +778,24 @@ def _edit_and_commit(ctx, hist, name, wt, g, tag):
     return rid
 
 
+FORMATS = ("pack-0.92", "2a", "knit", "2a")  # knit: full-history branch (BzrBranch5), the generic Branch.get_rev_id
+
+
 def case(ctx):
     from breezy.branch import Branch
     from breezy.workingtree import WorkingTree
 
     rng = ctx.rng
-    fmt = "2a" if ctx.index % 3 else "pack-0.92"
+    fmt = FORMATS[ctx.index % 4]
+    # two cases in three install tip-change hooks that read the history (each format gets both kinds of case)
+    hooked = (ctx.index // 4) % 3 != 2
     quick = ctx.tier == "quick"
     nrevs = rng.randint(5, 9) if quick else rng.randint(8, 24)
     mix = {"plain": 26, "branch": 14, "merge": 34, "crisscross": 12, "parallel": 2, "cherrypick": 8, "resurrect": 0}
     try:
-        hist = H.build(ctx, rng, fmt, nrevs=nrevs, tier=ctx.tier, light=True, ghosts=(ctx.index % 4 == 0), tags=True, nbranches=3, mix=mix)
+        # format-5 branches have no tag store
+        hist = H.build(ctx, rng, fmt, nrevs=nrevs, tier=ctx.tier, light=True, ghosts=(ctx.index % 5 == 0), tags=(fmt != "knit"),
+                       nbranches=3, mix=mix)
     except BaseException as e:
         if isinstance(e, (KeyboardInterrupt, SystemExit)):
             raise
@@ -593,72 +833,101 @@ def case(ctx):
                 others.append((hist.trees[nm], Branch.open(hist.trees[nm]).last_revision()))
         return tags, others
 
-    def battery(branch, tip, phase):
+    def battery(branch, tip, phase, order_first=False):
+        """The Battery object when the branch API part held (specs were then run too), else None."""
         tags, others = context(tip)
         bt = Battery(ctx, g, hist, tags, others, phase)
+        if order_first:
+            # the caller holds the lock and the branch's history caches are empty (tip just moved / object just locked):
+            # the first thing asked is then one non-ascending scan, so the battery below also starts from what that left behind
+            bt.set_tip(tip)
+            if branch.last_revision_info() == (bt.n, tip) and bt.n:
+                order, seq = rng.choice(sorted(bt.order_sequences().items()))
+                ctx.count("lookup_order_pass_held_object")
+                bt.order_pass(branch, order, seq, rng.choice(["api", "spec", "mixed"]))
         if bt.run_branch_api(branch, tip):
             bt.run_specs(branch)
-            return True
-        return False
+            return bt
+        return None
 
+    hooks = TipHooks(ctx)
+    hk = "+history-reading-tip-hooks" if hooked else ""
+    ctx.hist("case:" + ("tip-hooks-installed" if hooked else "no-hooks"))
     tip = b.last_revision()
     steps = 3 if quick else 6
-    with wt.lock_write():
-        if not battery(b, tip, "locked:initial"):
-            return
-        for k in range(steps):
-            kind = rng.choice(["commit", "commit", "merge", "merge", "settip"]) if k < steps - 1 else rng.choice(["settip", "merge", "commit"])
-            if kind == "merge" and len(names) > 1:
-                other = rng.choice([nm for nm in names if nm != subject])
-                ob = Branch.open(hist.trees[other])
-                otip = ob.last_revision()
-                if otip in g.anc(tip):
-                    kind = "commit"
-                else:
-                    try:
-                        wt.merge_from_branch(ob)
-                    except Exception as e:  # noqa: BLE001  workload construction
-                        ctx.hist("interleaved-merge-refused:" + type(e).__name__)
-                        wt.revert()
+    try:
+        with wt.lock_write():
+            if not battery(b, tip, "locked:initial", order_first=rng.random() < 0.3):
+                return
+            if hooked:
+                hooks.install()
+            kind = None
+            for k in range(steps):
+                kind = rng.choice(["commit", "commit", "merge", "merge", "settip"]) if k < steps - 1 else rng.choice(["settip", "merge", "commit"])
+                if kind == "merge" and len(names) > 1:
+                    other = rng.choice([nm for nm in names if nm != subject])
+                    ob = Branch.open(hist.trees[other])
+                    otip = ob.last_revision()
+                    if otip in g.anc(tip):
                         kind = "commit"
                     else:
-                        H.resolve_all(wt)
-                        tip = _edit_and_commit(ctx, hist, subject, wt, g, "merge%d" % k)
-                        ctx.hist("interleaved:merge")
-            if kind == "commit" or (kind == "merge" and len(names) < 2):
-                tip = _edit_and_commit(ctx, hist, subject, wt, g, "c%d" % k)
-                ctx.hist("interleaved:commit")
-            elif kind == "settip":
-                # move the tip without committing (what pull / uncommit / push do to a branch)
-                lh = g.lh(tip)
-                cands = [(i + 1, r) for i, r in enumerate(lh[:-1])]
-                foreign = [t for _p, t in context(tip)[1] if t not in g.anc(tip) and t in g.P]
-                if foreign and rng.random() < 0.5:
-                    t2 = rng.choice(foreign)
-                    try:
-                        b.fetch(Branch.open([p for p, t in context(tip)[1] if t == t2][0]), t2)
-                        b.generate_revision_history(t2)
-                        tip = t2
-                        ctx.hist("interleaved:generate_revision_history")
-                    except Exception as e:  # noqa: BLE001
-                        ctx.hist("interleaved-settip-refused:" + type(e).__name__)
-                elif cands:
-                    no, r = rng.choice(cands)
-                    b.set_last_revision_info(no, r)
-                    tip = r
-                    ctx.hist("interleaved:set_last_revision_info")
-                # the working tree is now out of step with its branch: no more commits through it
+                        try:
+                            wt.merge_from_branch(ob)
+                        except Exception as e:  # noqa: BLE001  workload construction
+                            ctx.hist("interleaved-merge-refused:" + type(e).__name__)
+                            wt.revert()
+                            kind = "commit"
+                        else:
+                            H.resolve_all(wt)
+                            tip = _edit_and_commit(ctx, hist, subject, wt, g, "merge%d" % k)
+                            ctx.hist("interleaved:merge")
+                if kind == "commit" or (kind == "merge" and len(names) < 2):
+                    tip = _edit_and_commit(ctx, hist, subject, wt, g, "c%d" % k)
+                    ctx.hist("interleaved:commit")
+                elif kind == "settip":
+                    # move the tip without committing (what pull / uncommit / push do to a branch)
+                    lh = g.lh(tip)
+                    cands = [(i + 1, r) for i, r in enumerate(lh[:-1])]
+                    foreign = [t for _p, t in context(tip)[1] if t not in g.anc(tip) and t in g.P]
+                    if foreign and rng.random() < 0.5:
+                        t2 = rng.choice(foreign)
+                        try:
+                            b.fetch(Branch.open([p for p, t in context(tip)[1] if t == t2][0]), t2)
+                            b.generate_revision_history(t2)
+                            tip = t2
+                            ctx.hist("interleaved:generate_revision_history")
+                        except Exception as e:  # noqa: BLE001
+                            ctx.hist("interleaved-settip-refused:" + type(e).__name__)
+                    elif cands:
+                        no, r = rng.choice(cands)
+                        b.set_last_revision_info(no, r)
+                        tip = r
+                        ctx.hist("interleaved:set_last_revision_info")
+                hooks.judge(g, hist, "locked:" + kind)
                 ctx.count("same_object_after_commit")
-                if not battery(b, tip, "locked:after-" + kind):
+                if hooked:
+                    ctx.count("same_object_after_hooked_tip_change")
+                if not battery(b, tip, "locked:after-" + kind + hk, order_first=rng.random() < 0.4):
                     return
-                break
-            ctx.count("same_object_after_commit")
-            if not battery(b, tip, "locked:after-" + kind):
-                return
+                if kind == "settip":
+                    # the working tree is now out of step with its branch: no more commits through it
+                    break
+        if hooked and kind != "settip":
+            # one more commit that nobody's lock surrounds: the post hook is the only place where the lock that covered
+            # the tip change is still held
+            tip = _edit_and_commit(ctx, hist, subject, WorkingTree.open(hist.trees[subject]), g, "unlocked")
+            ctx.hist("interleaved:commit-without-caller-lock")
+            hooks.judge(g, hist, "commit-without-caller-lock")
+    finally:
+        hooks.uninstall()
     # unlocked, fresh object: every call takes and releases its own lock (no cache survives)
     fresh = Branch.open(hist.trees[subject])
     ctx.count("fresh_object")
-    battery(fresh, tip, "fresh-unlocked")
+    bt = battery(fresh, tip, "fresh-unlocked")
+    if bt is not None:
+        # fresh objects, one read lock each, the mainline asked for newest-first / in bisection order / shuffled
+        bt.phase = "fresh-readlocked-orders"
+        bt.run_orders(lambda: Branch.open(hist.trees[subject]))
     if ctx.tier == "thorough" and rng.random() < 0.3:
         # the same battery through a RemoteBranch (smart server and client media in this process, over pipes)
         ps = PipeServer(hist.root)
@@ -667,7 +936,7 @@ def case(ctx):
             ctx.count("remote_battery")
             ctx.hist("remote:" + type(rb).__name__)
             with rb.lock_read():
-                battery(rb, tip, "remote-readlocked")
+                battery(rb, tip, "remote-readlocked", order_first=rng.random() < 0.5)
         finally:
             ps.close()
     if rng.random() < 0.5 and len(names) > 1:
@@ -678,3 +947,8 @@ def case(ctx):
             bt = Battery(ctx, g, hist, tags, others, "other-branch-readlocked")
             if bt.run_branch_api(ob, ob.last_revision()):
                 bt.run_specs(ob)
+            else:
+                bt = None
+        if bt is not None:
+            bt.phase = "other-branch-fresh-readlocked-orders"
+            bt.run_orders(lambda: Branch.open(hist.trees[other]))
